@@ -206,6 +206,8 @@ pub fn run_batch<C: Case>(cfg: &BatchCfg, known: &[Known<C>]) -> BatchResult<C> 
     let harness_err: Mutex<Option<String>> = Mutex::new(None);
     let total = Mutex::new(Agg::default());
     let done = AtomicU64::new(0);
+    // Debugging aid: execute a single run index of the batch.
+    let only_run: Option<u64> = std::env::var("VERIF_ONLY_RUN").ok().and_then(|s| s.parse().ok());
 
     std::thread::scope(|scope| {
         for _ in 0..cfg.workers {
@@ -219,6 +221,11 @@ pub fn run_batch<C: Case>(cfg: &BatchCfg, known: &[Known<C>]) -> BatchResult<C> 
                     if i >= cfg.runs {
                         break;
                     }
+                    if let Some(only) = only_run {
+                        if i != only {
+                            continue;
+                        }
+                    }
                     if i % 64 == 0 && start.elapsed() > cfg.wall {
                         break;
                     }
@@ -226,6 +233,9 @@ pub fn run_batch<C: Case>(cfg: &BatchCfg, known: &[Known<C>]) -> BatchResult<C> 
                     let mut rng = Rng::new(run_seed);
                     let scn = C::generate(&mut rng, cfg.prop, cfg.tier);
                     let strategy = strategy_for(&mut rng, &scn);
+                    if std::env::var_os("VERIF_TRACE").is_some() {
+                        eprintln!("TRACE run {i} seed {run_seed:#x} strategy {} scenario {}", strategy.name(), scn.to_json());
+                    }
                     let (r, out) = one_run(&scn, run_seed, strategy.clone());
                     done.fetch_add(1, Ordering::Relaxed);
 
